@@ -103,7 +103,7 @@ class VerusResult:
         self.gen = None
 
 
-def run_verus_unit(prop, unit_name, tier):
+def run_verus_unit(prop, unit_name, tier, _lost=None, _text=None):
     tmpl = os.path.join(ROOT, "specs", unit_name + ".rs")
     outdir = os.path.join(OUT, prop)
     os.makedirs(outdir, exist_ok=True)
@@ -113,6 +113,11 @@ def run_verus_unit(prop, unit_name, tier):
         u = gen.generate(REPO, tmpl, unit_path)
     except (gen.LostAnchor, gen.LexError) as e:
         raise Undecided(f"{unit_name}: extraction failed (lost anchor / unsupported shape): {e}")
+    if _text is not None:
+        # second pass without the vacuity guards that did not compile (line count preserved)
+        with open(unit_path, "w") as f:
+            f.write(_text)
+        u.out_lines = _text.split("\n")
     rlimit = "20" if tier == "quick" else "80"
     cmd = ["verus", unit_path, "--output-json", "--time", "--rlimit", rlimit, "--multiple-errors", "4",
            "--num-threads", "14", "--triggers-mode", "silent"]
@@ -139,6 +144,36 @@ def run_verus_unit(prop, unit_name, tier):
             res.functions.append((fb["function"], fb.get("mode:", fb.get("mode", "?")), bool(fb["success"]), fb.get("time", 0)))
     # diagnostics
     res.errors = parse_errors(p.stderr, u, unit_path)
+    res.canaries_lost = list(_lost or [])
+    if (vr.get("encountered-vir-error") or (vr.get("encountered-error") and not res.functions)) and not _lost:
+        # a vacuity guard (a hand-written `fn canary_*` that CALLS a function under contract) no longer type-checks, e.g. because
+        # the function got another parameter: the guard is lost (reported as undecided), but that must not hide the real
+        # obligations -- drop exactly the guards the compiler rejected and verify the rest
+        bad = set()
+        only_canaries = bool(res.errors)
+        for e in res.errors:
+            fn, _impl = enclosing(u.out_lines, e["line"]) if e.get("line") else (None, None)
+            if fn and fn.startswith("canary_"):
+                bad.add(fn)
+            else:
+                only_canaries = False
+        if only_canaries and bad:
+            text = open(unit_path).read().split("\n")
+            out, i = [], 0
+            while i < len(text):
+                m = FN_RE.match(text[i])
+                if m and m.group(1) in bad and not text[i].startswith(" "):
+                    j = i
+                    while j < len(text) and text[j].rstrip() != "}":
+                        j += 1
+                    # keep the line count (the line map labels the functions that follow)
+                    out.append(f"// vacuity guard {m.group(1)} removed: it no longer type-checks against the extracted code")
+                    out.extend(["//"] * (j - i))
+                    i = j + 1
+                    continue
+                out.append(text[i])
+                i += 1
+            return run_verus_unit(prop, unit_name, tier, _lost=sorted(bad), _text="\n".join(out))
     if vr.get("encountered-vir-error") or (vr.get("encountered-error") and not res.functions):
         raise Undecided(f"{unit_name}: verus rejected the unit before verification (unsupported construct / type error):\n"
                         + "\n".join(e["msg"] + " @" + str(e["line"]) for e in res.errors[:6]) + "\n" + p.stderr[-1500:])
@@ -308,6 +343,8 @@ def classify(res, vr):
         failed.append(e)
     if res.canaries_bad:
         undecided.append(f"{res.unit}: vacuity guard: canary passed: {res.canaries_bad}")
+    if getattr(res, "canaries_lost", None):
+        undecided.append(f"{res.unit}: vacuity guard lost: {res.canaries_lost} no longer type-check against the extracted code (changed signature?); the remaining obligations were still checked")
     # consistency: a failed function with no parsed error still is a failed obligation
     if real_failed_fns and not failed and not undecided:
         for f in real_failed_fns:
